@@ -28,8 +28,11 @@ TStep ==
 
 TReset == l <= Len(Rec) /\ R.ev = "reset" /\ l' = l + 1 /\ UNCHANGED seen
 
+\* many threads, each nested `depth` continuations deep at the same time: every one of them got its result
+TNest == l <= Len(Rec) /\ R.ev = "nest" /\ R.ok = R.threads /\ l' = l + 1 /\ UNCHANGED seen
+
 TInit == l = 1 /\ seen = {}
-TNext == TStep \/ TReset
+TNext == TStep \/ TReset \/ TNest
 TSpec == TInit /\ [][TNext]_<<l, seen>>
 
 \* the final state has consumed everything and seen every case of the domain
